@@ -31,7 +31,10 @@ def run(ck: Check, repo: Repo) -> None:
                      "the same list; tuple positions agree from env.step through the pipe to step_wait's return value")
     ck.rule("C12.6", "slice agreement: writer slice [i*size, (i+1)*size) with size = prod(shape); buffer length num_envs*prod(shape); "
                      "reader reshapes to (num_envs, *shape)")
+    ck.rule("C12.7", "copy mode: with copy=True the observations handed to the caller own their memory (deep copy at the return site, or the "
+                     "reader itself allocates), so a later step cannot overwrite an observation already returned")
     worker = repo.fn(AV, "_async_worker")
+    _copy_mode(ck, repo)
     _reset_obs(ck, repo, worker)
     _dead_stores(ck, repo)
     _siblings(ck, repo)
@@ -341,14 +344,24 @@ def _reset_condition(ck: Check, repo: Repo, worker: Fn) -> None:
     cfgw = CFG(worker.node)
     for fn in (worker, repo.fn(WR, "PettingZooAutoResetParallelWrapper.step")):
         cfg = CFG(fn.node)
+        found = False
         for n in cfg.live_nodes():
-            if n.kind == "test" and isinstance(n.stmt, ast.If) and isinstance(n.ast, ast.Call) and call_name(n.ast) in ("all", "np.all") and n.true_succ is not None:
+            if n.kind == "test" and isinstance(n.stmt, ast.If) and n.true_succ is not None:
                 body_calls = [c for s in n.stmt.body for c in calls_in(s) if last_attr(c) == "reset"]
-                if body_calls:
+                txt = ast.unparse(n.ast)
+                if body_calls and ("term" in txt or "trunc" in txt or "done" in txt):
                     sites.append((fn, n))
-    ck.floor("C12.4", len(sites), 2, "auto-reset conditions (worker and wrapper)")
+                    found = True
+        ck.ob("C12.4", fn, fn.node, found, f"{fn.qualname}: restarts the episode under a condition on the agents' termination / truncation flags",
+              construct=f"{fn.qualname}: auto-reset site")
     for fn, n in sites:
-        ok, why = _per_agent_or(n.ast.args[0])
+        if isinstance(n.ast, ast.Call) and call_name(n.ast) in ("all", "np.all") and n.ast.args:
+            ok, why = _per_agent_or(n.ast.args[0])
+        elif isinstance(n.ast, ast.BoolOp):
+            ok, why = False, (f"`{short(n.ast, 90)}` quantifies over the agents separately for each flag: an episode in which some agents terminated and "
+                              "the others were only truncated is over, but neither all(...) holds, so it is never reset")
+        else:
+            ok, why = False, f"unrecognised reset condition `{short(n.ast, 80)}`"
         ck.ob("C12.4", fn, n.ast, ok, f"{fn.qualname}: an episode is over when every agent is terminated or truncated (combined per agent)", detail=why)
         srcs = ast.unparse(n.ast)
         ck.ob("C12.4", fn, n.ast, ("term" in srcs and "trunc" in srcs), f"{fn.qualname}: both termination and truncation flags enter the condition")
@@ -510,5 +523,43 @@ VARIANTS = [
     ("buffer-too-short", _AV, "num_envs * int(np.prod(obs_space.shape))", "int(np.prod(obs_space.shape))", "fire", "C12.6"),
     ("reset-via-temp-ok", _AV, "                    observation, info = env.reset()\n                    transition = observation, reward, terminated, truncated, info\n",
      "                    new_obs, new_info = env.reset()\n                    transition = new_obs, reward, terminated, truncated, new_info\n", "silent", None),
+    ("copy-mode-views", _AV, "                result[key] = reshaped.astype(subspace.dtype)", "                result[key] = reshaped.astype(subspace.dtype, copy=False)", "silent", None),
+    ("wrapper-all-or-all", _WR, "        if np.all(\n            [\n                term or trunc\n                for term, trunc in zip(terminations.values(), truncations.values())\n            ]\n        ):",
+     "        if all(terminations.values()) or all(truncations.values()):", "fire", "C12.4"),
     ("worker-or-form-ok", _AV, "                        term | trunc\n", "                        term or trunc\n", "silent", None),
 ]
+
+
+# ------------------------------------------------------------------------------------------------ C12.7
+def _reader_allocates(repo: Repo) -> Tuple[bool, str]:
+    """Does Observations.__getitem__ return freshly allocated arrays in every branch?"""
+    gi = repo.fn(AV, "Observations.__getitem__")
+    casts = [c for c in calls_in(gi.node, nested=True) if last_attr(c) in ("astype", "copy") or call_name(c) in ("np.array", "np.copy")]
+    if not casts:
+        return False, "the reader returns reshaped views of the shared buffer"
+    for c in casts:
+        cp = get_kw(c, "copy")
+        if last_attr(c) == "astype" and cp is not None and const_value(cp) is False:
+            return False, f"`{short(c, 60)}` returns the shared buffer itself when the dtype already matches"
+    resh = [c for c in calls_in(gi.node, nested=True) if last_attr(c) == "reshape"]
+    return len(casts) >= len(resh) and len(resh) >= 3, "every branch converts with astype() (allocating)"
+
+
+def _copy_mode(ck: Check, repo: Repo) -> None:
+    alloc, why = _reader_allocates(repo)
+    ck.note("C12.7_reader_allocates", [alloc, why])
+    for name in ("reset_wait", "step_wait"):
+        fn = repo.fn(AV, f"AsyncPettingZooVecEnv.{name}")
+        rets = [n for n in walk_no_nested(fn.node) if isinstance(n, ast.Return) and isinstance(n.value, ast.Tuple)]
+        ck.floor("C12.7", len(rets), 1, f"return tuple of {name}")
+        for r in rets:
+            obs = r.value.elts[0]
+            if not (isinstance(obs, ast.IfExp) and dotted(obs.test) == "self.copy"):
+                ck.ob("C12.7", fn, obs, False, f"{name}: the observation element distinguishes copy and no-copy mode", detail=short(obs, 80))
+                continue
+            body = obs.body
+            deep = any(isinstance(x, ast.Call) and call_name(x).split(".")[-1] in ("deepcopy", "copy") for x in ast.walk(body))
+            ck.ob("C12.7", fn, body, deep or alloc,
+                  f"{name}: with copy=True the caller receives arrays that do not alias the shared observation buffer",
+                  detail=("no deep copy at the return site and " + why + ": a previously returned observation changes when the environments step again"))
+            ck.ob("C12.7", fn, obs.orelse, dotted(obs.orelse) == "self.observations", f"{name}: with copy=False the live view is returned (documented)")
